@@ -66,6 +66,34 @@ type vfC05LiveNode struct {
 	ctlBeats int
 	hits     int
 	slowCtl  bool
+	// multi-step positions
+	prepares   map[string]int // PREPAREs seen per statement
+	executes   map[string]int // EXECUTEs seen per statement
+	unprepared map[string]bool
+	// the concurrent position: EXECUTEs of the "conc" statement held back, and its second PREPARE
+	concHeld    []*vfFrame
+	concConn    *vfNodeConn
+	concPrepare *vfFrame
+	concState   int // 0 warm-up, 1 collecting two EXECUTEs, 2 first answered UNPREPARED, 3 done
+}
+
+// vfC05MaxHits: "every request at the position gets the frame" ends here (a node that answers
+// every page request with "there are more pages" would otherwise keep SliceMap busy for ever -
+// which is an endless result, not a defect)
+const vfC05MaxHits = 40
+
+const (
+	vfC05StmtPlain = "SELECT a FROM ks1.t WHERE k = ?"
+	vfC05StmtPaged = "SELECT a FROM ks1.paged WHERE k = ?"
+	vfC05StmtConc  = "SELECT a FROM ks1.conc WHERE k = ?"
+)
+
+// vfC05StmtOf: the default node hands out "id:<statement>" as prepared id.
+func vfC05StmtOf(id []byte) string {
+	if strings.HasPrefix(string(id), "id:") {
+		return string(id[3:])
+	}
+	return string(id)
 }
 
 func (ln *vfC05LiveNode) position(nc *vfNodeConn, f *vfFrame, q *vfRequest) string {
@@ -131,8 +159,29 @@ func (ln *vfC05LiveNode) position(nc *vfNodeConn, f *vfFrame, q *vfRequest) stri
 		if strings.Contains(q.Stmt, "batchtbl") {
 			return "app.batch_prepare"
 		}
-		return "app.prepare"
+		ln.prepares[q.Stmt]++
+		if q.Stmt == vfC05StmtPlain && ln.prepares[q.Stmt] > 1 {
+			return "app.prepare2" // the driver prepares again (after UNPREPARED)
+		}
+		if q.Stmt == vfC05StmtPlain {
+			return "app.prepare"
+		}
+		return "other"
 	case vfOpExecute:
+		stmt := vfC05StmtOf(q.PreparedID)
+		ln.executes[stmt]++
+		switch stmt {
+		case vfC05StmtPaged:
+			if len(q.PageState) > 0 {
+				return "app.page2"
+			}
+			return "app.page1"
+		case vfC05StmtConc:
+			return "conc.execute"
+		}
+		if ln.prepares[vfC05StmtPlain] > 1 {
+			return "app.execute2"
+		}
 		return "app.execute"
 	case vfOpBatch:
 		return "app.batch"
@@ -140,14 +189,142 @@ func (ln *vfC05LiveNode) position(nc *vfNodeConn, f *vfFrame, q *vfRequest) stri
 	return "other"
 }
 
+// vfC05PagedRows: one page of the paged statement; state nil = last page.
+func vfC05PagedRows(f *vfFrame, first int32, state []byte) []byte {
+	rows := [][][]byte{{vfCellInt(first)}, {vfCellInt(first + 1)}}
+	return vfRowsBody(f.Version, "ks1", "paged", []vfCol{{"v", vfTInt}}, rows, state, false)
+}
+
+// conc: two callers execute the same prepared statement.  The node waits until both EXECUTEs
+// are there, answers the first UNPREPARED, waits for the driver's new PREPARE, answers the
+// second EXECUTE (with the case's frame at position conc.execute2, else UNPREPARED as well)
+// and only then the PREPARE.
+func (ln *vfC05LiveNode) concExecute(nc *vfNodeConn, f *vfFrame, q *vfRequest) bool {
+	ln.mu.Lock()
+	defer ln.mu.Unlock()
+	switch ln.concState {
+	case 0: // the warm-up execution
+		ln.concState = 1
+		return false
+	case 1:
+		ln.concHeld = append(ln.concHeld, f)
+		ln.concConn = nc
+		if len(ln.concHeld) == 1 {
+			go func() { // a lone caller is not kept waiting for ever
+				time.Sleep(300 * time.Millisecond)
+				ln.concStep(true)
+			}()
+		} else {
+			go ln.concStep(false)
+		}
+		return true
+	}
+	return false
+}
+
+func (ln *vfC05LiveNode) concStep(timeout bool) {
+	ln.mu.Lock()
+	if ln.concState != 1 || (!timeout && len(ln.concHeld) < 2) {
+		ln.mu.Unlock()
+		return
+	}
+	ln.concState = 2
+	held, nc := ln.concHeld, ln.concConn
+	ln.mu.Unlock()
+	id := []byte("id:" + vfC05StmtConc)
+	nc.Reply(held[0], vfOpError, vfUnpreparedBody(id))
+	if len(held) < 2 {
+		ln.mu.Lock()
+		ln.concState = 3
+		ln.mu.Unlock()
+		return
+	}
+	// the second caller's answer arrives while the new PREPARE is unanswered
+	for end := time.Now().Add(400 * time.Millisecond); time.Now().Before(end); time.Sleep(5 * time.Millisecond) {
+		ln.mu.Lock()
+		got := ln.concPrepare != nil
+		ln.mu.Unlock()
+		if got {
+			break
+		}
+	}
+	if ln.c.Pos == "conc.execute2" {
+		ln.mu.Lock()
+		ln.hits++
+		ln.mu.Unlock()
+		nc.Send(vfC05Patch(ln.frame, held[1].Stream))
+	} else {
+		nc.Reply(held[1], vfOpError, vfUnpreparedBody(id))
+	}
+	time.Sleep(60 * time.Millisecond)
+	ln.mu.Lock()
+	pf := ln.concPrepare
+	ln.concState = 3
+	ln.mu.Unlock()
+	if pf != nil {
+		nc.Node.defaultHandle(nc, pf, vfParseRequest(pf))
+	}
+}
+
 func (ln *vfC05LiveNode) handler(nc *vfNodeConn, f *vfFrame, q *vfRequest) bool {
 	pos := ln.position(nc, f, q)
-	if pos == ln.c.Pos {
+	// ---- the protocol-abiding steps that lead to (or accompany) the multi-step positions
+	switch {
+	case pos == "conc.execute":
+		return ln.concExecute(nc, f, q)
+	case f.Op == vfOpPrepare && q.Stmt == vfC05StmtConc:
+		ln.mu.Lock()
+		hold := ln.concState == 2 && ln.concPrepare == nil
+		if hold {
+			ln.concPrepare = f
+		}
+		ln.mu.Unlock()
+		if hold {
+			return true
+		}
+	case pos == "app.page1":
+		nc.Reply(f, vfOpResult, vfC05PagedRows(f, 1, []byte("vf-page-2")))
+		return true
+	case pos == "app.page2" && ln.c.Pos != "app.page2":
+		nc.Reply(f, vfOpResult, vfC05PagedRows(f, 3, nil))
+		return true
+	case pos == "app.execute" && (ln.c.Pos == "app.prepare2" || ln.c.Pos == "app.execute2"):
+		ln.mu.Lock()
+		first := !ln.unprepared[vfC05StmtPlain]
+		ln.unprepared[vfC05StmtPlain] = true
+		ln.mu.Unlock()
+		if first {
+			nc.Reply(f, vfOpError, vfUnpreparedBody(q.PreparedID))
+			return true
+		}
+	case (pos == "app.query" && ln.c.Pos == "app.query.second_answer") || (pos == "app.execute" && ln.c.Pos == "app.execute.second_answer"):
+		// the answer, and then another frame on the same stream
+		ln.mu.Lock()
+		ln.hits++
+		ln.mu.Unlock()
+		nc.Node.defaultHandle(nc, f, q)
+		nc.Send(vfC05Patch(ln.frame, f.Stream))
+		return true
+	case pos == "app.query" && ln.c.Pos == "app.query.late_answer":
+		// no answer until the caller has given up (Timeout is 400 ms), then the frame
 		ln.mu.Lock()
 		ln.hits++
 		first := ln.hits == 1
 		ln.mu.Unlock()
-		if first || !ln.c.Once {
+		if first {
+			go func() {
+				time.Sleep(650 * time.Millisecond)
+				nc.Send(vfC05Patch(ln.frame, f.Stream))
+			}()
+			return true
+		}
+	}
+	if pos == ln.c.Pos {
+		ln.mu.Lock()
+		ln.hits++
+		first, many := ln.hits == 1, ln.hits > vfC05MaxHits
+		ln.mu.Unlock()
+		if first || (!ln.c.Once && !many) {
 			nc.Send(vfC05Patch(ln.frame, f.Stream))
 			return true
 		}
@@ -182,12 +359,16 @@ func vfC05LiveWaits(pos string) (fixed, max time.Duration) {
 		return 400 * time.Millisecond, 8 * time.Second
 	case "unsolicited.event", "unsolicited.stream0", "unsolicited.unused_stream":
 		return 1500 * time.Millisecond, 0 // event debounce (1 s) and what the handlers then do
+	case "app.query.late_answer":
+		return 500 * time.Millisecond, 0 // the withheld frame is sent 650 ms after the request
 	}
 	return 0, 0
 }
 
-func vfC05RunLive(in *vfC05Input) vfC05Result {
-	res := vfC05Result{ID: in.ID}
+func vfC05RunLive(in *vfC05Input) (res vfC05Result) {
+	t0 := time.Now()
+	defer func() { res.Us = time.Since(t0).Microseconds() }()
+	res = vfC05Result{ID: in.ID}
 	var c vfC05LiveCase
 	if err := json.Unmarshal(in.Live, &c); err != nil {
 		res.Obs = append(res.Obs, vfC05Obs{St: "input", Out: "bad-live-case"})
@@ -198,6 +379,7 @@ func vfC05RunLive(in *vfC05Input) vfC05Result {
 	cl.Set([]vfHostDesc{vfDesc(1)})
 	n := vfNewNode(cl, vfDesc(1))
 	ln := &vfC05LiveNode{c: &c, frame: vfC05I2B(c.Bytes), conns: map[int]*vfC05ConnState{},
+		prepares: map[string]int{}, executes: map[string]int{}, unprepared: map[string]bool{},
 		slowCtl: c.Pos == "ctl.heartbeat" || c.Pos == "ctl.conn_heartbeat"}
 	n.Handler = ln.handler
 	if c.Cfg == "auth" || c.Cfg == "chain" {
@@ -261,6 +443,31 @@ func vfC05RunLive(in *vfC05Input) vfC05Result {
 			}
 			return "value"
 		}},
+		// a paged result read the way the first page looks (one int column)
+		{"app-paged-scan", func() string {
+			iter := s.Query(vfC05StmtPaged, 1).PageSize(2).Iter()
+			var a int
+			for i := 0; iter.Scan(&a) && i < vfC05RowCap; i++ {
+			}
+			if err := iter.Close(); err != nil {
+				return "error"
+			}
+			return "value"
+		}},
+		{"app-paged-slicemap", func() string { return consume(s.Query(vfC05StmtPaged, 1).PageSize(2).Iter()) }},
+		{"app-paged-scanner", func() string {
+			sc := s.Query(vfC05StmtPaged, 1).PageSize(2).Iter().Scanner()
+			for i := 0; sc.Next() && i < vfC05RowCap; i++ {
+				var a int
+				if err := sc.Scan(&a); err != nil {
+					break
+				}
+			}
+			if err := sc.Err(); err != nil {
+				return "error"
+			}
+			return "value"
+		}},
 		{"app-batch", func() string {
 			b := s.NewBatch(LoggedBatch)
 			b.Query("INSERT INTO ks1.t (k) VALUES (1)")
@@ -280,6 +487,22 @@ func vfC05RunLive(in *vfC05Input) vfC05Result {
 	}
 	for _, op := range ops {
 		res.Obs = append(res.Obs, vfC05Guard(op.name, false, op.fn))
+	}
+	if strings.HasPrefix(c.Pos, "conc.") || (in.ID+int(vfSeed()))%8 == 0 {
+		// two callers of one prepared statement (warm-up first: the statement is in the cache)
+		conc := func() string { return consume(s.Query(vfC05StmtConc, 1).Iter()) }
+		res.Obs = append(res.Obs, vfC05Guard("app-conc-warmup", false, conc))
+		var cwg sync.WaitGroup
+		cobs := make([]vfC05Obs, 2)
+		for i := range cobs {
+			cwg.Add(1)
+			go func(i int) {
+				defer cwg.Done()
+				cobs[i] = vfC05Guard("app-conc-caller", false, conc)
+			}(i)
+		}
+		cwg.Wait()
+		res.Obs = append(res.Obs, cobs...)
 	}
 
 	if strings.HasPrefix(c.Pos, "unsolicited.") {
